@@ -8,6 +8,8 @@ verif_virtual:	dd 0			; 0 = pass through to the real instructions
 global verif_virtual
 verif_calls:	dq 0
 global verif_calls
+verif_xgetbv_ud:	dq 0		; XGETBV executed while the virtual CPUID.1:ECX.OSXSAVE is clear (#UD on a real CPU)
+global verif_xgetbv_ud
 section .text
 global isal_verif_cpuid
 isal_verif_cpuid:
@@ -45,6 +47,10 @@ isal_verif_xgetbv:
 	xgetbv
 	ret
 .virt:
+	test	dword [verif_cfg + 4], (1 << 27)
+	jnz	.osx
+	lock inc qword [verif_xgetbv_ud]
+.osx:
 	mov	eax, [verif_cfg + 16]
 	xor	edx, edx
 	ret
